@@ -970,7 +970,7 @@ class HierarchicalMachine(Machine):
             event.source_name = current_state
             event.source_path = current_state.split(self.state_cls.separator)
         event.transition = self._create_transition(event.source_name, state_name)
-        event.transition.execute(event)
+        return event.transition.execute(event)
 
     def trigger_event(self, model, trigger, *args, **kwargs):
         """Processes events recursively and forwards arguments if suitable events are found.
